@@ -515,11 +515,7 @@ func (s *vSess) step(op []string) (cont bool) {
 	case "O":
 		s.out = append(s.out, s.obs())
 	case "G":
-		// the signature is defined for a message whose parse completed (msg.Buf is only set then)
-		if !(s.msg.Parsed() || s.msg.state == SIPMsgNoCLen) {
-			s.out = append(s.out, "nosig")
-			break
-		}
+		// (the library now answers "empty" itself for a message whose parse has not completed)
 		sig, e := GetMsgSig(s.msg)
 		s.out = append(s.out, vMsgSig(&sig)+" err="+vErrName(e))
 	case "A":
